@@ -53,6 +53,9 @@ func digestApkStream(r io.Reader, hash crypto.Hash) (*Digest, error) {
 	if err != nil {
 		return nil, err
 	}
+	if sigLoc < 0 || sigLoc > inz.DirLoc {
+		return nil, errMalformed
+	}
 	origDirLoc := inz.DirLoc
 	inz.DirLoc = sigLoc
 	digests, err := hasher.Finish(inz, true)
